@@ -34,16 +34,14 @@ def build_solver(ob, timeout_ms=None):
     s = z3.Solver()
     if timeout_ms:
         s.set('timeout', int(timeout_ms))
-    for ax in spec.background():
+    forms = list(ob.pc) + list(ob.facts or [])
+    forms += [to_z3(getattr(h, 'conclusion', None) if getattr(h, 'conclusion', None) is not None else h.goal)
+              for h in getattr(ob, 'hints', []) if h.proved]
+    forms.append(z3.Not(to_z3(ob.goal)))
+    for ax in spec.relevant_background(forms):
         s.add(ax)
-    for h in ob.pc:
-        s.add(h)
-    for f in (ob.facts or []):
+    for f in forms:
         s.add(f)
-    for h in getattr(ob, 'hints', []):
-        if h.proved:
-            s.add(to_z3(h.goal))
-    s.add(z3.Not(to_z3(ob.goal)))
     return s
 
 
